@@ -208,6 +208,45 @@ def rule_recall(repo, rule='C07.R16'):
     rr.require_floor(4)
     return rr
 
+def rule_pipeline_links(repo, rule='C07.R17'):
+    """End-to-end fold (rules/pipeline.py): for each concrete template the decoder's bitmap links and the attributes of the wired tree
+    are the same relation - the value at flat index k linked to o is an attribute of the node of o and of no other node; an associated
+    field is the attribute of the element that follows it; the only other attributes are the 008023 / 008024 / 031021 meanings."""
+    from sa.rules import pipeline as P
+    from sa.rules.c09 import _occurrences
+    rr = RuleResult(rule, 'decode -> wire folded end to end: bitmap links and associated fields of the decoder are exactly the attributes of the hierarchical view')
+    known = {'quality information while 204 is in force': 'lockstep:element under 204 class 33 after 222000'}
+    for name in sorted(P.templates()):
+        o = P.run_template(repo, name)
+        rr.instance('template "%s"' % name)
+        if not o.decode.ok or not getattr(o, 'wire', None) or not o.wire.ok:
+            continue        # reported by C09.R13
+        key = known.get(name, 'pipeline-links:%s' % name.split(' (')[0].replace(' ', '-').replace(',', ''))
+        occ = _occurrences(o.nodes)
+        attrs = [(i, cls, owner) for i, role, cls, owner in occ if role == 'attribute']
+        links = dict(o.links)
+        # expected links: an independent reading of the template (zero bits of the governing bitmap, in order)
+        for k, owner in sorted(links.items()):
+            if not any(i == k and ow == owner for i, cls, ow in attrs):
+                rr.fail(key, 'pybufrkit/templatedata.py', 'template "%s": the decoder links flat entry %d (%s) to entry %d (%s), but the hierarchical view does not show it as '
+                        'an attribute of that element (attributes: %s)' % (name, k, o.descs[k].fields.get('id'), owner, o.descs[owner].fields.get('id'),
+                                                                           [(i, ow) for i, c, ow in attrs]), witness={'template': name, 'link': [k, owner]})
+        for i, cls, owner in attrs:
+            if links.get(i) == owner:
+                continue
+            if cls == 'AssociatedFieldNode':
+                if owner != i + 1:
+                    rr.fail(key, 'pybufrkit/templatedata.py', 'template "%s": the associated field at flat entry %d is attached to entry %s, not to the element that follows it' % (
+                        name, i, owner), witness={'template': name})
+                continue
+            did = o.descs[i].fields.get('id') if isinstance(i, int) and 0 <= i < len(o.descs) else None
+            if did in (8023, 8024, 31021):
+                continue
+            rr.fail(key, 'pybufrkit/templatedata.py', 'template "%s": flat entry %s (%s) is shown as an attribute of entry %s although the decoder did not link it there (links %s)' % (
+                name, i, did, owner, links), witness={'template': name})
+    rr.require_floor(15)
+    return rr
+
 
 def rule_r3(repo, tier):
     rr = RuleResult('C07.R3', '225255 values are coded with width + 1 and reference -2**width; other markers keep the element coding')
@@ -473,6 +512,7 @@ def run(repo, check):
     check.run_rule(rule_r5, repo)
     check.run_rule(rule_r6, repo)
     check.run_rule(rule_recall, repo)
+    check.run_rule(rule_pipeline_links, repo)
     r7 = c09.rule_r1(repo, 'C07.R7')
     r7.title = 'coder / wirer lockstep (shared with C09.R1): attributes attach to the right flat entries only if both sides count alike'
     check.add(r7)
